@@ -102,12 +102,29 @@ class Bench:
         self.n_ok_state = 0
         self.instr_hooks = []    # callables (bench, ev, info) for C19, set by oracle_instr
         self.held = {}           # hold id -> kept PlateSlicer objects (the user's variable), see ev_hold_slice
+        self.guards = []         # (label, list object handed to the library, shallow copy taken before the call)
 
     # ------------------------------------------------------------------ helpers
     def V(self, prop, clause, key, detail, known=None):
         v = Violation(prop, clause, key, self.idx, detail, known)
         self.violations.append(v)
         return v
+
+    def guard(self, seq, label):
+        """A list the caller hands to the library (solutes, initial contents, per-solute quantities, destinations) is an
+        argument like any other: it must hold the same objects afterwards, whether the call succeeds or raises."""
+        if isinstance(seq, list):
+            self.guards.append((label, seq, list(seq)))
+        return seq
+
+    def check_guards(self, where):
+        for label, seq, snap in self.guards:
+            if len(seq) != len(snap) or any(a is not b for a, b in zip(seq, snap)):
+                self.V('C04', 'argument_list_mutated', (where, label),
+                       f"the list passed as {label} held {len(snap)} item(s) before the call and holds {len(seq)} afterwards: {seq!r}")
+            else:
+                self.stats['probe:argument_list_checked'] += 1
+        self.guards = []
 
     def note_ratio(self, clause, err, tol):
         if tol > 0:
@@ -255,6 +272,7 @@ class Bench:
             raise HarnessError(f"unknown op {op}")
         nv0 = len(self.violations)
         rec = fn(ev) or {}
+        self.check_guards(op)
         # C04: every live object unchanged, after every event, successful or not
         bad = self.world.check_immutability()
         for label, diff in bad:
@@ -302,7 +320,7 @@ class Bench:
         if cap is not None:
             kwargs['max_volume'] = cap
         if contents:
-            kwargs['initial_contents'] = [(W.rsubs[s], q) for s, q in contents]
+            kwargs['initial_contents'] = self.guard([(W.rsubs[s], q) for s, q in contents], 'initial_contents')
         out = self.call(lambda: rep.Container(*args, **kwargs))
         self.judge(status, out, key)
         self.sig.add(('new_container', status, out[0] == 'ok', len(contents)))
@@ -1079,8 +1097,8 @@ class Bench:
             solvent = sop.base
         else:
             solvent = W.rsubs[solv]
-        kwargs = dict(ev['kwargs'])
-        sol_arg = solutes[0] if len(solutes) == 1 and not ev.get('aslist') else solutes
+        kwargs = {k: (self.guard(list(v), k) if isinstance(v, list) else v) for k, v in ev['kwargs'].items()}
+        sol_arg = solutes[0] if len(solutes) == 1 and not ev.get('aslist') else self.guard(solutes, 'solute')
         out = self.call(lambda: rep.Container.create_solution(sol_arg, solvent, ev['name'], **kwargs))
         self.sig.add(('solution', key[1], len(solutes), tuple(sorted(kwargs)), out[0] == 'ok'))
         if out[0] != 'ok':
